@@ -79,7 +79,10 @@ def run(ctx):
             continue
         var = idx_map.get(i)
         key = "regex[%s]" % (var or i)
-        ok_anchor = rx.startswith("(?i)^") and rx.endswith("$") and not rx.endswith("\\$")
+        fm = re.match(r"^\(\?([a-zA-Z]+)\)\^", rx)
+        flags = set(fm.group(1)) if fm else set()
+        # case-insensitive, and NOT multi-line (with `m`, ^ and $ match at every line of the query)
+        ok_anchor = bool(fm) and "i" in flags and "m" not in flags and rx.endswith("$") and not rx.endswith("\\$") and not re.search(r"\(\?[a-zA-Z]*m[a-zA-Z]*[):]", rx[len(fm.group(0)):] if fm else rx)
         r1.check(ok_anchor, key + ":anchored", "%r is anchored with (?i)^ ... $" % rx, "%r is not a whole-query, case-insensitive pattern: a query that merely contains the command text would be swallowed" % rx)
         # no unanchored top-level alternation
         depth = 0
@@ -100,17 +103,17 @@ def run(ctx):
         r1.check(not top_alt, key + ":no-top-level-alternation", "no top-level `|` (anchors bind the whole pattern)", "%r has a top-level alternation: one side escapes the anchors" % rx)
         if var in CMD:
             kws, cap = CMD[var]
-            body = rx[5:-1]
+            body = rx[len(fm.group(0)):-1] if fm else rx
             words = re.findall(r"[A-Za-z]+", re.sub(r"\([^)]*\)", " ", body))
             r1.check([w.upper() for w in words] == kws, key + ":keywords", "keywords %s match Command::%s" % (kws, var), "regex %d (%r) is paired with Command::%s but spells %s" % (i, rx, var, words))
             ngroups = len(re.findall(r"(?<!\\)\((?!\?)", rx))
             r1.check(ngroups == (1 if cap else 0), key + ":capture", "capture groups: %d" % ngroups, "Command::%s expects %d capture group(s), regex has %d" % (var, 1 if cap else 0, ngroups))
             if var == "SetServerRole":
-                m = re.search(r"\(([^)]*)\)", rx[5:])
+                m = re.search(r"\(([^)]*)\)", rx[len(fm.group(0)):] if fm else rx)
                 alts = sorted(a.lower() for a in m.group(1).split("|")) if m else []
                 r1.check(alts == ["any", "auto", "default", "primary", "replica"], key + ":role-literals", "role alternation is exactly the five handled literals", "role alternation %s differs from the literals handled by try_execute_command" % alts)
             if var in ("SetShardingKey", "SetShard"):
-                m = re.search(r"\(([^)]*)\)", rx[5:])
+                m = re.search(r"\(([^)]*)\)", rx[len(fm.group(0)):] if fm else rx)
                 r1.check(bool(m) and m.group(1).split("|")[0] == "[0-9]+", key + ":numeric", "numeric argument is [0-9]+", "numeric argument pattern changed: %s" % (m and m.group(1)))
     # the role literal match arms in try_execute_command cover the alternation
     if tec:
